@@ -155,13 +155,13 @@ FAMILIES = {
 PROPS = {
     'C01': {
         'families': [('ed', ['ED', 'AL', 'EP', 'FL', 'WR', 'WB']), ('fr', ['SW', 'FR-F4']), ('ug', ['UG']), ('ab', ['AB']),
-                     ('u8', ['U8']), ('px', ['PX'])],
-        'floors': {'ED': 30, 'AL': 1, 'EP': 1, 'SW': 2},
+                     ('u8', ['U8']), ('px', ['PX']), ('sc', ['SC-C01'])],
+        'floors': {'ED': 30, 'AL': 1, 'EP': 1, 'SW': 2, 'SC-C01': 1},
         'title': 'Decoding and re-encoding never panic, hang or fail on arbitrary bytes',
     },
     'C02': {
         'families': [('kt', ['KT']), ('fr_enc', ['FR-F5']), ('fr', ['FR-F2']), ('dg', ['DG-D6'])],
-        'floors': {'KT-K1': 33, 'KT-K2': 30, 'KT-K3': 30, 'KT-K4': 20, 'KT-K7': 6, 'KT-K12': 6, 'FR-F5': 10},
+        'floors': {'KT-K1': 33, 'KT-K2': 30, 'KT-K3': 30, 'KT-K4': 20, 'KT-K7': 6, 'KT-K12': 6, 'KT-K13': 3, 'FR-F5': 10},
         'title': 'Decode -> encode -> decode returns the same map',
     },
     'C03': {
@@ -171,8 +171,8 @@ PROPS = {
         'title': 'Edits to a decoded map survive encode -> decode',
     },
     'C04': {
-        'families': [('fr_enc', ['FR-F5']), ('fr', ['FR-F2']), ('kt', ['KT-K3', 'KT-K4', 'KT-K7', 'KT-K8', 'KT-K10'])],
-        'floors': {'FR-F5': 10, 'FR-F2': 13, 'KT-K3': 30, 'KT-K4': 20, 'KT-K7': 6, 'KT-K8': 2, 'KT-K10': 6},
+        'families': [('fr_enc', ['FR-F5']), ('fr', ['FR-F2']), ('kt', ['KT-K3', 'KT-K4', 'KT-K7', 'KT-K8', 'KT-K10', 'KT-K13'])],
+        'floors': {'FR-F5': 10, 'FR-F2': 13, 'KT-K3': 30, 'KT-K4': 20, 'KT-K7': 6, 'KT-K8': 2, 'KT-K10': 6, 'KT-K13': 3},
         'title': 'The encoder only emits text that its own decoder accepts (framing clause)',
     },
     'C05': {
@@ -227,7 +227,7 @@ PROPS = {
     },
     'C19': {
         'families': [('sc', ['SC-C19']), ('sscurve', ['SS-C19'])],
-        'floors': {'SC-C19': 22, 'SS-C19': 10},
+        'floors': {'SC-C19': 23, 'SS-C19': 10},
         'title': 'Position along a curve is a faithful arc-length parametrisation',
     },
     'C20': {
